@@ -17,6 +17,9 @@
 //   * OBJECT RE-USE HISTORIES (run_reuse): one object set_up 2-5 times with a change in between, after every set_up compared with the
 //     model (all quantity lines, and the model object of `hnew`/`hsetup`/`hsub`/`htot`), the textbook oracle and, bit for bit, with a
 //     fresh object configured identically; sensitivity files written by a later set_up, read back by the same and by a second object.
+//   * SETTERS AFTER set_up WITHOUT A NEW set_up (run_setters): every public setter (and parse()) called on a set-up object with a new or
+//     with the same value, then every kind of request without set_up: flag already_set_up, members and accepted / refused against the
+//     model object (`sset` / `ssetup` / `sreq`), every answered request against a fresh object configured with the new values.
 // Usage: c05_poissonll <seed> <quick|thorough> <opsfile> <implfile>   (scratch files <implfile>.sens_* are removed again)
 #include "stir_fixtures.h"
 #include "common.h"
@@ -39,6 +42,8 @@
 #include "stir/ExamInfo.h"
 #include "stir/Succeeded.h"
 #include "stir/IO/read_from_file.h"
+#include "stir/TimeFrameDefinitions.h"
+#include <sstream>
 #include <functional>
 #include <memory>
 #include <algorithm>
@@ -60,6 +65,7 @@ struct Obj : public ObjBase
   Obj() {}
   void set_use_tofsens(bool b) { this->use_tofsens = b; }
   bool get_use_tofsens() const { return this->use_tofsens; }
+  bool flag() const { return this->already_set_up; } // GeneralisedObjectiveFunction::already_set_up (protected)
 };
 
 // An objective function object constructed in storage pre-filled with a chosen byte, so that members
@@ -2476,6 +2482,680 @@ run_reuse(Out& o, const Case& base, const Case* other, vh::Rng& rng, int case_id
   remove_files("f");
 }
 
+// ------------------------------------------------------------------------------------------------
+// SETTERS CALLED AFTER set_up() WITHOUT A NEW set_up() ("histories" of the quantifier).  One object is configured and set up; then one
+// or two public setters are called — with a NEW value or with the SAME value the object already has — and every kind of request is made
+// WITHOUT calling set_up again; finally set_up is called and the requests are made again.
+//   * model lines: every setter call goes to the model object (`sset`: flag already_set_up and the members observable through the
+//     getters after the call), every set_up (`ssetup`: accepted / refused, flag, members) and every request (`sreq`: answered / refused);
+//   * oracle: a request that is answered must give, bit for bit, what a FRESH object configured with the values the object now claims
+//     (own projector pair, own prior) and set up gives; when gradient and gradient-plus-sensitivity are both answered their difference must
+//     be the subset sensitivity the object hands out.  Requests that test already_set_up (also after parse()): plain ORACLE-FAIL.  The four
+//     public members that do not test it (get_subset_sensitivity / get_sensitivity, add_subset_sensitivity,
+//     actual_compute_subset_gradient_without_penalty) are outside the property's quantifier between a setter and the next set_up: a stale
+//     answer of theirs is only counted (`unguarded_answered_stale`).
+struct SetterLog
+{
+  Out& o;
+  Obj& obj;
+  std::map<const void*, int> ptr_ids;
+  std::map<std::string, int> str_ids;
+  int next_id = 2; // 1: the objects set_defaults creates
+  SetterLog(Out& o_, Obj& obj_)
+      : o(o_),
+        obj(obj_)
+  {}
+  int id(const void* p)
+  {
+    if (!p)
+      return 0;
+    auto it = ptr_ids.find(p);
+    if (it == ptr_ids.end())
+      it = ptr_ids.insert(std::make_pair(p, next_id++)).first;
+    return it->second;
+  }
+  int id(const std::string& s)
+  {
+    if (s.empty())
+      return 0;
+    auto it = str_ids.find(s);
+    if (it == str_ids.end())
+      it = str_ids.insert(std::make_pair(s, next_id++)).first;
+    return it->second;
+  }
+  std::string members(bool with_flag = true) const
+  {
+    return std::string(with_flag ? (obj.flag() ? "1" : "0") : "-") + " n=" + std::to_string(obj.get_num_subsets()) + " seg="
+           + std::to_string(obj.get_max_segment_num_to_process()) + " tof=" + std::to_string(obj.get_max_timing_pos_num_to_process()) + " zero="
+           + (obj.get_zero_seg0_end_planes() ? "1" : "0") + " subsens=" + (obj.get_use_subset_sensitivities() ? "1" : "0") + " rec="
+           + (obj.get_recompute_sensitivity() ? "1" : "0") + " frame=" + std::to_string(obj.get_time_frame_num());
+  }
+  template <class F>
+  void call(const std::string& op, F f, bool with_flag = true)
+  {
+    const bool ok = guarded(f);
+    o.line("sset " + op, std::string(ok ? "" : "err ") + members(with_flag));
+    ++o.checks;
+  }
+  void num_subsets(int n) { call("num_subsets " + std::to_string(n), [&] { obj.set_num_subsets(n); }); }
+  void proj_data(const shared_ptr<ProjData>& p) { call("proj_data " + std::to_string(id(p.get())), [&] { obj.set_proj_data_sptr(p); }); }
+  void input_data(const shared_ptr<ProjData>& p) { call("input_data " + std::to_string(id(p.get())), [&] { obj.set_input_data(p); }); }
+  void additive(const shared_ptr<ProjData>& p) { call("additive " + std::to_string(id(p.get())), [&] { obj.set_additive_proj_data_sptr(p); }); }
+  void normalisation(const shared_ptr<BinNormalisation>& p)
+  {
+    call("normalisation " + std::to_string(id(p.get())), [&] { obj.set_normalisation_sptr(p); });
+  }
+  void projector_pair(const shared_ptr<ProjectorByBinPair>& p)
+  {
+    call("projector_pair " + std::to_string(id(p.get())), [&] { obj.set_projector_pair_sptr(p); });
+  }
+  void max_segment(int m) { call("max_segment " + std::to_string(m), [&] { obj.set_max_segment_num_to_process(m); }); }
+  void max_tof(int m) { call("max_tof " + std::to_string(m), [&] { obj.set_max_timing_pos_num_to_process(m); }); }
+  void zero(bool b) { call(std::string("zero ") + (b ? "1" : "0"), [&] { obj.set_zero_seg0_end_planes(b); }); }
+  void use_subset_sens(bool b) { call(std::string("use_subset_sens ") + (b ? "1" : "0"), [&] { obj.set_use_subset_sensitivities(b); }); }
+  void recompute(bool b) { call(std::string("recompute ") + (b ? "1" : "0"), [&] { obj.set_recompute_sensitivity(b); }); }
+  void sens_filename(const std::string& s) { call("sens_filename " + std::to_string(id(s)), [&] { obj.set_sensitivity_filename(s); }); }
+  // bad: boost::format cannot use the pattern with one argument — a pattern with two place holders, and also the EMPTY string (the
+  // default value of the member): the setter resets the flag, stores the string and then throws
+  void subsens_filenames(const std::string& s, bool bad = false)
+  {
+    bad = bad || s.empty();
+    call("subsens_filenames " + std::to_string(id(s)) + (bad ? " bad" : ""), [&] { obj.set_subsensitivity_filenames(s); });
+  }
+  void subset_sens_sptr(int subset, const shared_ptr<TargetT>& p)
+  {
+    call("subset_sens_sptr " + std::to_string(subset) + " " + std::to_string(id(p.get())), [&] { obj.set_subset_sensitivity_sptr(p, subset); });
+  }
+  void frame_num(int k) { call("frame_num " + std::to_string(k), [&] { obj.set_frame_num(k); }); }
+  // (`frame_defs == arg` compares values: the identity is that of the value)
+  void frame_defs(const TimeFrameDefinitions& d, int value_id)
+  {
+    call("frame_defs " + std::to_string(value_id), [&] { obj.set_frame_definitions(d); });
+  }
+  void prior(const shared_ptr<GeneralisedPrior<TargetT>>& p, bool ready)
+  {
+    call("prior " + std::to_string(id(p.get())) + (ready ? " 1" : " 0"), [&] { obj.set_prior_sptr(p); });
+  }
+  // parse() of a parameter text with the two keys (since fix C05-3 it resets the flag like the setters)
+  void parse(bool z, int maxseg)
+  {
+    call(
+        "parse " + std::string(z ? "1 " : "0 ") + std::to_string(maxseg),
+        [&] {
+          std::istringstream in("PoissonLogLikelihoodWithLinearModelForMeanAndProjData Parameters:=\nzero end planes of segment 0 := "
+                                + std::string(z ? "1" : "0") + "\nmaximum absolute segment number to process := " + std::to_string(maxseg)
+                                + "\nEnd PoissonLogLikelihoodWithLinearModelForMeanAndProjData Parameters:=\n");
+          if (!obj.parse(in))
+            throw 1;
+        });
+  }
+};
+
+// the calls of configure(), each of them also made on the model object
+static void
+configure_logged(SetterLog& L, const Case& k, int n)
+{
+  L.proj_data(k.ydata);
+  L.projector_pair(k.pair);
+  if (k.c.additive)
+    L.additive(k.adata);
+  L.normalisation(k.norm);
+  L.zero(k.c.zero);
+  L.max_segment(k.c.maxseg);
+  if (k.c.maxtof >= 0)
+    L.max_tof(k.c.maxtof);
+  L.use_subset_sens(k.c.use_subset_sens);
+  L.obj.set_use_tofsens(k.c.use_tofsens);
+  L.num_subsets(n);
+}
+
+// are the subsets balanced (independent count: every (segment, view) of the segment range belongs to the subset given by the view number
+// of its basic (segment, view)); a projector pair of its own
+static bool
+balanced_independent(const Case& k, int maxseg_eff, int n)
+{
+  bool balanced = true;
+  guarded([&] {
+    shared_ptr<ProjectorByBinPair> aux = make_pair_with_symmetries(k.c.symflags);
+    aux->set_up(k.g.pdi, k.image);
+    const DataSymmetriesForViewSegmentNumbers& sy = *aux->get_symmetries_used();
+    std::vector<long> counts(std::max(n, 1), 0);
+    for (int seg = -maxseg_eff; seg <= maxseg_eff; ++seg)
+      for (int view = k.g.pdi->get_min_view_num(); view <= k.g.pdi->get_max_view_num(); ++view)
+        {
+          ViewSegmentNumbers vs(view, seg);
+          sy.find_basic_view_segment_numbers(vs);
+          counts[(vs.view_num() - k.g.pdi->get_min_view_num()) % std::max(n, 1)]++;
+        }
+    for (auto c : counts)
+      balanced = balanced && c == counts[0];
+  });
+  return balanced;
+}
+
+static ReqResult
+serve_any(Obj& obj, const Case& k, const std::string& req, TargetT& lam_im, TargetT& x_im)
+{
+  ReqResult r;
+  shared_ptr<TargetT> out(k.image->get_empty_copy());
+  r.ok = guarded([&] {
+    if (req == "value_wo")
+      r.value = obj.compute_objective_function_without_penalty(lam_im, 0);
+    else if (req == "gradient_wo")
+      obj.compute_sub_gradient_without_penalty(*out, lam_im, 0);
+    else if (req == "hessian_wo")
+      {
+        if (obj.accumulate_sub_Hessian_times_input_without_penalty(*out, lam_im, x_im, 0) != Succeeded::yes)
+          throw 1;
+      }
+    else if (req == "ahessian_wo")
+      {
+        if (obj.add_multiplication_with_approximate_sub_Hessian_without_penalty(*out, x_im, 0) != Succeeded::yes)
+          throw 1;
+      }
+    else if (req == "agrad")
+      obj.actual_compute_subset_gradient_without_penalty(*out, lam_im, 0, false);
+    else if (req == "cached")
+      *out = obj.get_subset_sensitivity(0);
+    else if (req == "total")
+      *out = obj.get_sensitivity();
+    else
+      {
+        const ReqResult r2 = serve(obj, k, req, lam_im, x_im);
+        if (!r2.ok)
+          throw 1;
+        r.value = r2.value;
+        *out = *k.image->get_empty_copy();
+        from_vec(*out, r2.v);
+      }
+  });
+  if (r.ok)
+    r.v = to_vec(*out);
+  return r;
+}
+
+// a prior whose "set up" flag is initialised (the constructor QuadraticPrior(only_2D, factor) leaves GeneralisedPrior::_already_set_up without a
+// value: whether such a prior refuses requests before its set_up is indeterminate)
+static shared_ptr<GeneralisedPrior<TargetT>>
+make_prior(float beta)
+{
+  shared_ptr<QuadraticPrior<float>> p(new QuadraticPrior<float>());
+  p->set_penalisation_factor(beta);
+  return p;
+}
+
+static bool
+is_unguarded(const std::string& req)
+{
+  return req == "sensitivity" || req == "agrad" || req == "cached" || req == "total";
+}
+
+static void
+run_setters(Out& o, const Case& base, vh::Rng& rng, int case_id, int hist_id, bool thorough, const std::string& prefix,
+            std::map<std::string, long>& hist)
+{
+  Case cur = base;
+  const int views = cur.c.N / 2;
+  // a number of subsets set_up accepts
+  int n = pick_n(cur, rng, thorough);
+  if (!cur.c.use_subset_sens && !balanced_independent(cur, cur.maxseg_eff, n))
+    n = 1;
+  Holder H(rng.coin() ? 0 : 1);
+  SetterLog L(o, *H);
+  char buf[640];
+  std::snprintf(buf, sizeof buf, "cfg %d nvox=%d zero=%d sameproj=%d %s setters=%d n=%d", case_id * 100 + hist_id + 5000, cur.ix->size(), cur.c.zero ? 1 : 0,
+                cur.same_proj ? 1 : 0, cur.c.str().c_str(), hist_id, n);
+  o.line(buf, "ok");
+  o.line("snew", "ok");
+  shared_ptr<TargetT> lam_im(cur.image->get_empty_copy()), x_im(cur.image->get_empty_copy());
+  from_vec(*lam_im, cur.lam);
+  from_vec(*x_im, cur.x);
+
+  // ---- what the object is told (`want`: the configuration it claims to have), beyond the fields of Case
+  int want_n = n;
+  int want_frame_num = 1;
+  int frame_defs_id = 1;
+  std::vector<std::pair<double, double>> one_frame(1, std::make_pair(0., 1.));
+  TimeFrameDefinitions want_frame_defs(one_frame);
+  float prior_beta = 0.F; // 0: no prior
+  shared_ptr<GeneralisedPrior<TargetT>> prior;
+  bool prior_ready = false;
+  bool sens_replaced = false;
+  bool sub0null = true;
+  bool unsafe_unguarded = false;  // a member value with which the functions that do not test the flag must not be called
+  bool lowlevel_unknown = false;  // a new normalisation / projector object that nobody has set up: its own checks decide about unguarded requests
+  bool parsed = false;
+  std::string tot_name, sub_name;
+  std::string story;
+
+  if (rng.range(0, 3) == 0)
+    {
+      prior_beta = static_cast<float>(0.05 + rng.unit());
+      prior = make_prior(prior_beta);
+      L.prior(prior, false);
+    }
+  configure_logged(L, cur, n);
+
+  auto do_set_up = [&](const char* when) -> bool {
+    const int segmax = cur.g.pdi->get_max_segment_num();
+    const int seg_setting = H->get_max_segment_num_to_process();
+    const bool files_ok = false; // no sensitivity file exists when a set_up of these histories may want to read one
+    // the balance for the range set_up will use (the member, or all segments for -1 / a value an earlier set_up derived from -1)
+    const int maxseg_eff = std::min(cur.c.maxseg < 0 ? segmax : cur.c.maxseg, segmax);
+    const bool bal = balanced_independent(cur, maxseg_eff, H->get_num_subsets());
+    (void)seg_setting;
+    const bool acc = guarded([&] {
+      if (H->set_up(cur.image) != Succeeded::yes)
+        throw 1;
+    });
+    o.line("ssetup " + std::to_string(segmax) + " " + std::to_string(cur.tofmax_data) + " " + (bal ? "1" : "0") + " " + (sub0null ? "1" : "0") + " "
+               + (files_ok ? "1" : "0") + " " + std::to_string(H->get_time_frame_definitions().get_num_frames()),
+           std::string(acc ? "ok " : "refused ") + L.members());
+    ++o.checks;
+    ++hist[std::string("setters-set_up-") + when + (acc ? "-ok" : "-refused")];
+    if (acc)
+      {
+        sub0null = false;
+        sens_replaced = false;
+        lowlevel_unknown = false;
+        if (prior)
+          prior_ready = true;
+      }
+    return acc;
+  };
+
+  if (!do_set_up("first"))
+    return;
+  cur.c.use_tofsens = H->get_use_tofsens();
+
+  // ---- the setter calls
+  struct Choice
+  {
+    int setter, variant;
+  };
+  static const int NSET = 19;
+  std::vector<Choice> choices;
+  {
+    // the first history of every configuration: another number of subsets (the class of the round-3 seed)
+    Choice c0;
+    // (the other histories go through the setters in turn: every setter 4-5 times per run of the quick tier as the first one)
+    c0.setter = hist_id == 0 && views > 1 ? 0 : (case_id * (thorough ? 11 : 5) + std::max(hist_id - 1, 0)) % NSET;
+    c0.variant = hist_id == 0 ? 0 : rng.range(0, 3);
+    choices.push_back(c0);
+    if (rng.range(0, 2) == 0)
+      {
+        Choice c1;
+        c1.setter = rng.range(0, NSET - 1);
+        c1.variant = rng.range(0, 3);
+        if (c1.setter != 18 && c0.setter != 18) // (parse histories stay on their own)
+          choices.push_back(c1);
+      }
+  }
+  bool bad_pattern = false;
+  for (auto& ch : choices)
+    {
+      const int v = ch.variant;
+      switch (ch.setter)
+        {
+        case 0: {
+          int n2 = want_n;
+          if (v == 0 || v == 1)
+            {
+              for (int t = 0; t < 8 && n2 == want_n; ++t)
+                n2 = rng.range(1, views);
+              story += n2 == want_n ? " num_subsets(same)" : " num_subsets(new)";
+            }
+          else if (v == 2)
+            story += " num_subsets(same)";
+          else
+            {
+              n2 = rng.range(-2, 0); // clamped to 1 by the setter
+              story += " num_subsets(not positive)";
+            }
+          L.num_subsets(n2);
+          want_n = std::max(n2, 1);
+          break;
+        }
+        case 1:
+        case 2: {
+          if (v != 0)
+            new_ydata(cur, rng);
+          story += std::string(ch.setter == 1 ? " proj_data" : " input_data") + (v != 0 ? "(new)" : "(same)");
+          if (ch.setter == 1)
+            L.proj_data(cur.ydata);
+          else
+            L.input_data(cur.ydata);
+          break;
+        }
+        case 3:
+          if (v == 0)
+            story += " additive(same)";
+          else if (cur.c.datamode == 2)
+            story += " additive(same)";
+          else
+            {
+              new_additive(cur, rng, cur.c.additive ? v != 1 : true);
+              story += cur.c.additive ? " additive(new)" : " additive(null)";
+            }
+          L.additive(cur.adata);
+          break;
+        case 4:
+          if (v == 0)
+            story += " normalisation(same)";
+          else
+            {
+              int kind = cur.c.normkind;
+              while (kind == cur.c.normkind)
+                kind = rng.range(0, cur.tof ? 7 : 4);
+              new_norm(cur, rng, kind);
+              lowlevel_unknown = true;
+              story += " normalisation(new)";
+            }
+          L.normalisation(cur.norm);
+          break;
+        case 5:
+          if (v == 0)
+            story += " projector_pair(same)";
+          else
+            {
+              cur.pair = make_pair_with_symmetries(cur.c.symflags);
+              lowlevel_unknown = true;
+              story += " projector_pair(new)";
+            }
+          L.projector_pair(cur.pair);
+          break;
+        case 6: {
+          const int top = cur.g.pdi->get_max_segment_num();
+          int m = H->get_max_segment_num_to_process();
+          if (v == 0)
+            {
+              const int old = m;
+              for (int t = 0; t < 8 && m == old; ++t)
+                m = rng.range(0, top);
+              story += m == old ? " max_segment(same)" : " max_segment(new)";
+            }
+          else if (v == 1)
+            story += " max_segment(same)";
+          else if (v == 2)
+            m = -1, story += " max_segment(-1)";
+          else
+            m = top + 1, unsafe_unguarded = true, story += " max_segment(too large)";
+          L.max_segment(m);
+          cur.c.maxseg = m;
+          break;
+        }
+        case 7: {
+          int m = H->get_max_timing_pos_num_to_process();
+          if (v == 0 && cur.tofmax_data > 0)
+            {
+              const int old = m;
+              for (int t = 0; t < 8 && m == old; ++t)
+                m = rng.range(0, cur.tofmax_data);
+              story += m == old ? " max_tof(same)" : " max_tof(new)";
+            }
+          else if (v <= 1)
+            story += " max_tof(same)";
+          else if (v == 2)
+            m = -1, story += " max_tof(-1)";
+          else
+            m = cur.tofmax_data + 1, unsafe_unguarded = true, story += " max_tof(too large)";
+          L.max_tof(m);
+          cur.c.maxtof = m;
+          break;
+        }
+        case 8:
+          if (v % 2 == 0)
+            cur.c.zero = !cur.c.zero;
+          story += v % 2 == 0 ? " zero(new)" : " zero(same)";
+          L.zero(cur.c.zero);
+          break;
+        case 9:
+          if (v % 2 == 0)
+            cur.c.use_subset_sens = !cur.c.use_subset_sens;
+          story += v % 2 == 0 ? " use_subset_sens(new)" : " use_subset_sens(same)";
+          L.use_subset_sens(cur.c.use_subset_sens);
+          break;
+        case 10:
+          story += v % 2 == 0 ? " recompute(0)" : " recompute(1)";
+          L.recompute(v % 2 != 0);
+          break;
+        case 11:
+          if (v % 2 == 0)
+            tot_name = prefix + "_stot.hv";
+          story += v % 2 == 0 ? " sens_filename(new)" : " sens_filename(same)";
+          L.sens_filename(tot_name);
+          break;
+        case 12:
+          if (v == 0 || v == 1)
+            sub_name = prefix + "_ssub%d.hv", bad_pattern = false, story += " subsens_filenames(new)";
+          else if (v == 2)
+            story += " subsens_filenames(same)";
+          else
+            sub_name = prefix + "_ssub%1%_%2%.hv", bad_pattern = true, story += " subsens_filenames(invalid pattern)";
+          L.subsens_filenames(sub_name, bad_pattern);
+          break;
+        case 13: {
+          shared_ptr<TargetT> given(cur.image->get_empty_copy());
+          given->fill(1.F + rng.range(0, 3));
+          // (subsensitivity_sptrs has the size the last set_up gave it — n —, and set_subset_sensitivity_sptr does not check the index:
+          // a subset number >= n, e.g. after set_num_subsets(larger), writes outside the vector)
+          const int s = rng.range(0, std::min(n, H->get_num_subsets()) - 1);
+          L.subset_sens_sptr(s, given);
+          sens_replaced = true;
+          story += " subset_sens_sptr";
+          break;
+        }
+        case 14:
+          if (v == 0)
+            want_frame_num = 2, unsafe_unguarded = true;
+          else if (v == 1)
+            want_frame_num = 0, unsafe_unguarded = true;
+          story += v <= 1 ? " frame_num(new)" : " frame_num(same)";
+          L.frame_num(want_frame_num);
+          break;
+        case 15:
+          if (v % 2 == 0)
+            {
+              std::vector<std::pair<double, double>> two;
+              two.push_back(std::make_pair(0., 2.));
+              two.push_back(std::make_pair(2., 3.));
+              want_frame_defs = TimeFrameDefinitions(two);
+              frame_defs_id = 2;
+              story += frame_defs_id == 2 ? " frame_defs(new)" : " frame_defs(same)";
+            }
+          else
+            story += " frame_defs(same)";
+          // (a copy: the setter compares values)
+          L.frame_defs(TimeFrameDefinitions(want_frame_defs), frame_defs_id);
+          break;
+        case 16:
+        case 17: {
+          if (v == 0 && prior)
+            {
+              prior.reset();
+              prior_beta = 0.F;
+              prior_ready = false;
+              story += " prior(null)";
+            }
+          else
+            {
+              prior_beta = static_cast<float>(0.05 + rng.unit());
+              prior = make_prior(prior_beta);
+              prior_ready = v >= 2;
+              if (prior_ready)
+                prior->set_up(cur.image);
+              story += prior_ready ? " prior(new, set up)" : " prior(new, not set up)";
+            }
+          L.prior(prior, prior_ready);
+          break;
+        }
+        default: {
+          // parse() of a parameter text: the other end-plane setting, all segments of the data
+          parsed = true;
+          cur.c.zero = !cur.c.zero;
+          const int top = cur.g.pdi->get_max_segment_num();
+          cur.c.maxseg = v % 2 == 0 ? top : H->get_max_segment_num_to_process();
+          cur.maxseg_eff = cur.c.maxseg;
+          L.parse(cur.c.zero, cur.c.maxseg);
+          story += " parse(zero end planes := other value)";
+          break;
+        }
+        }
+    }
+  cur.maxseg_eff = cur.c.maxseg < 0 ? cur.g.pdi->get_max_segment_num() : cur.c.maxseg;
+  const std::string ctx = "history `set_up(n=" + std::to_string(n) + ") ->" + story + " -> requests without set_up`; " + cur.c.str();
+  ++hist["setters-histories"];
+  for (auto& ch : choices)
+    ++hist["setters-setter-" + std::to_string(ch.setter)];
+
+  // ---- a fresh object with the configuration the object now claims to have
+  auto make_fresh = [&](std::unique_ptr<Holder>& F) -> bool {
+    Case twin = cur;
+    twin.pair = make_pair_with_symmetries(cur.c.symflags);
+    F.reset(new Holder(rng.coin() ? 0 : 1));
+    configure(**F, twin, want_n);
+    if (!twin.c.additive)
+      (*F)->set_additive_proj_data_sptr(shared_ptr<ProjData>());
+    if (twin.c.maxtof < 0)
+      (*F)->set_max_timing_pos_num_to_process(-1);
+    (*F)->set_use_tofsens(H->get_use_tofsens());
+    (*F)->set_frame_num(want_frame_num);
+    (*F)->set_frame_definitions(want_frame_defs);
+    if (prior)
+      (*F)->set_prior_sptr(make_prior(prior_beta));
+    return guarded([&] {
+      if ((*F)->set_up(cur.image) != Succeeded::yes)
+        throw 1;
+    });
+  };
+
+  auto ask_all = [&](const char* phase, bool after_setters) {
+    std::vector<std::string> kinds = { "value", "gradient", "gps", "hessian", "ahessian", "sensitivity", "agrad", "cached", "total" };
+    if (prior)
+      for (const char* kk : { "value_wo", "gradient_wo", "hessian_wo", "ahessian_wo" })
+        kinds.push_back(kk);
+    // Rng order
+    for (std::size_t i = kinds.size(); i > 1; --i)
+      std::swap(kinds[i - 1], kinds[rng.range(0, static_cast<int>(i) - 1)]);
+    std::map<std::string, ReqResult> got;
+    for (auto& kk : kinds)
+      {
+        const bool ung = is_unguarded(kk);
+        if (ung && after_setters && unsafe_unguarded)
+          continue;
+        if ((kk == "sensitivity" || kk == "agrad") && after_setters && H->get_num_subsets() < 1)
+          continue;
+        got[kk] = serve_any(*H, cur, kk, *lam_im, *x_im);
+        // the prior's own "not set up" check refuses the penalised functions; a new normalisation / projector object that nobody has
+        // set up decides by its own checks about the functions that do not test the flag: no model line for those
+        if (!(ung && lowlevel_unknown && (kk == "sensitivity" || kk == "agrad")))
+          {
+            o.line("sreq " + kk, got[kk].ok ? "1" : "0");
+            ++o.checks;
+          }
+        ++hist[std::string("setters-request-") + phase + (got[kk].ok ? "-answered" : "-refused")];
+      }
+    bool any = false;
+    for (auto& kv : got)
+      any = any || kv.second.ok;
+    if (!any)
+      return;
+    std::unique_ptr<Holder> F;
+    const bool accF = make_fresh(F);
+    std::map<std::string, ReqResult> fresh;
+    for (auto& kk : kinds)
+      if (got.count(kk) && got[kk].ok && accF)
+        fresh[kk] = serve_any(**F, cur, kk, *lam_im, *x_im);
+    auto report = [&](const std::string& kk, const std::string& text) {
+      {
+        std::string st = story;
+        std::replace(st.begin(), st.end(), ' ', '_');
+        ++hist["setters-stale-answer-" + kk + "-after" + st];
+      }
+      // get_subset_sensitivity / get_sensitivity, add_subset_sensitivity and the public actual_compute_subset_gradient_without_penalty do not
+      // test already_set_up: what they answer between a setter and the next set_up is outside the property's quantifier (requests AFTER
+      // set-up).  Counted, not an oracle verdict; their answered / refused pattern stays a model line (`sreq`).
+      if (is_unguarded(kk) && after_setters)
+        {
+          ++hist["unguarded_answered_stale"];
+          return;
+        }
+      o.fail(text + (parsed && after_setters ? " [after parse() of a parameter text on the object that was set up]" : "") + "; " + ctx);
+    };
+    // "the 'gradient plus sensitivity' quantity exceeds the gradient by exactly the sensitivity", on what the object answers now
+    const bool same_proj = !cur.tof || H->get_use_tofsens();
+    if (got.count("gps") && got.count("cached") && got["gps"].ok && got["cached"].ok && !sens_replaced && same_proj && H->get_use_subset_sensitivities())
+      {
+        const std::string gk = prior ? "gradient_wo" : "gradient";
+        if (got.count(gk) && got[gk].ok)
+          {
+            ++o.checks;
+            ++hist["setters-oracle-gps-minus-grad"];
+            const std::vector<float>&gp = got["gps"].v, &gr = got[gk].v, &se = got["cached"].v;
+            for (std::size_t i = 0; i < gp.size(); ++i)
+              if (!(std::fabs((double(gp[i]) - double(gr[i])) - double(se[i])) <= 1e-4 * (2 * std::fabs(gp[i]) + std::fabs(gr[i]) + std::fabs(se[i])) + 1e-30))
+                {
+                  report("gps", std::string("gradient_plus_sensitivity - gradient != get_subset_sensitivity(0) at voxel ") + std::to_string(i) + " ("
+                                    + vh::hex(gp[i] - gr[i]) + " vs " + vh::hex(se[i]) + ") " + (after_setters ? "after the setter call(s) without a new set_up" : "after the final set_up"));
+                  break;
+                }
+          }
+      }
+    for (auto& kv : got)
+      {
+        if (!kv.second.ok)
+          continue;
+        const std::string& kk = kv.first;
+        if ((kk == "cached" || kk == "total") && sens_replaced)
+          continue; // the caller's own images
+        ++o.checks;
+        const std::string what = std::string(after_setters ? "request '" + kk + "' is answered after the setter call(s) without a new set_up"
+                                                           : "request '" + kk + "' after the final set_up");
+        if (!accF)
+          {
+            if (after_setters)
+              report(kk, what + " although set_up of a new object with the configuration the object now has is refused");
+            continue;
+          }
+        // (requests that test the flag: bit for bit; the others — e.g. the total sensitivity accumulated over another number of subsets — up
+        // to the rounding of a different order of summation)
+        bool same = fresh[kk].same(kv.second);
+        if (!same && is_unguarded(kk) && fresh[kk].ok && fresh[kk].v.size() == kv.second.v.size())
+          {
+            same = true;
+            for (std::size_t i = 0; i < kv.second.v.size(); ++i)
+              same = same
+                     && std::fabs(double(fresh[kk].v[i]) - double(kv.second.v[i]))
+                            <= 2e-5 * (std::fabs(double(fresh[kk].v[i])) + std::fabs(double(kv.second.v[i]))) + 1e-30;
+          }
+        if (!same)
+          report(kk, what + (fresh[kk].ok ? " but differs from the answer of a new object configured with the values the object now has and set up"
+                                          : " but a new object configured with the values the object now has refuses it"));
+      }
+  };
+  ask_all("after-setters", true);
+
+  // ---- the final set_up, and the requests again
+  if (bad_pattern)
+    {
+      sub_name.clear();
+      L.subsens_filenames(sub_name);
+    }
+  parsed = false;
+  unsafe_unguarded = false;
+  if (do_set_up("final"))
+    {
+      cur.c.use_tofsens = H->get_use_tofsens();
+      ask_all("after-final-set_up", false);
+    }
+  for (const char* ext : { ".hv", ".v", ".ahv" })
+    {
+      std::remove((prefix + "_stot" + ext).c_str());
+      for (int s = 0; s < 16; ++s)
+        std::remove((prefix + "_ssub" + std::to_string(s) + ext).c_str());
+    }
+}
+
 int
 main(int argc, char** argv)
 {
@@ -2561,6 +3241,8 @@ main(int argc, char** argv)
       run_loaded(o, k, rng, std::string(argv[4]) + ".sens", hist);
       for (int rep = 0; rep < (thorough ? 2 : 1); ++rep)
         run_reuse(o, k, prev.get(), rng, ci, thorough, std::string(argv[4]) + ".sens", hist);
+      for (int h = 0; h < (thorough ? 12 : 6); ++h)
+        run_setters(o, k, rng, ci, h, thorough, std::string(argv[4]) + ".sens", hist);
       prev.reset(new Case(k));
     }
 
